@@ -221,6 +221,12 @@ func runScript(sc Script, unit int) (res Result) {
 	// legit reports whether a return that has been observed is enabled in model state st
 	legit := func(r ret, st State) string {
 		if r.op == "write" && !(st.Cpc == "writing" && (st.Pend == 0 || st.Rclosed)) && st.Cpc != "idle" {
+			// Once the transport has answered or failed, closing the body (TCloseBody) is enabled in the model and commutes with every
+			// step of the caller and of the library goroutine: a FAILING Write is then a behaviour of the model with TCloseBody taken
+			// earlier -- whether the transport or the library itself (after Do has returned) closes the read side is not observable.
+			if r.err != nil && (st.Tpc == "answered" || st.Tpc == "failed") {
+				return ""
+			}
 			return "Write returned while its bytes were neither consumed nor the body closed"
 		}
 		if r.op == "close" && !(st.Tpc == "answered" || st.Tpc == "failed") {
